@@ -125,7 +125,9 @@ class Report:
         self.notes: List[str] = []
 
     def add_rule_result(self, r: Rule, obs: List[Ob], wall: float) -> None:
-        if len(obs) < r.expect_min:
+        # the instance floor guards against a rule that passes vacuously; a rule that already reports a violated obligation has
+        # a verdict, however few instances it looked at
+        if len(obs) < r.expect_min and not any(getattr(o, 'status', '') == 'violated' or getattr(o, 'ok', True) is False for o in obs):
             raise AnalysisError(
                 f'{r.id}: only {len(obs)} rule instance(s) found, at least {r.expect_min} confirmed by hand on the '
                 f'pinned tree -- the anchors this rule needs have vanished (a rule that matches nothing would pass vacuously)'
